@@ -151,6 +151,10 @@ def arith_trees():
     out.append(('AND', 'x', ('GREATER', 'x.att', 3)))
     out.append(('IMPLIES', 'x', ('EQUALS', ('SUM', 'att', 'x'), 3)))
     out.append(('NOT', ('LOWER', 'x.att', 3), None))
+    out.append(('AND', ('GREATER', 'x.att', 3), ('OR', 'x', 'y')))
+    out.append(('AND', ('OR', 'x', ('AND', 'y', 'z')), ('LOWER_EQUALS', ('SUM', 'att', 'x'), 100)))
+    out.append(('NOT', ('IMPLIES', ('GREATER', 'x.att', 3), ('NOT', 'y', None)), None))
+    out.append(('AND', ('AND', ('GREATER', 'x.att', 3), 'x'), ('IMPLIES', 'y', ('AND', 'x', 'z'))))
     assert nums
     return tuple(out)
 
